@@ -174,6 +174,11 @@ def x_own(report):
         r is not None and r.startswith("Call(func=Name(id='ZipFileLinearIndex'") for r in _returns(zsel)) and \
         len(_returns(zsel)) == 2 and _contains(zsel, "manifest = manifest.select_to_manifest(**kwargs)")
     M = _cls(idx, "MultiIndex")
+    mload = _fn(M, "load")
+    facts["ownMultiLoadRecomputesRows"] = _contains(mload, "manifest = CollectionManifest.create_manifest(sigloc_iter())") \
+        and _contains(mload, "if iloc is None:\n    iloc = idx.location\nfor ss in idx.signatures():\n    yield ss, iloc") \
+        and not any(isinstance(n, ast.Assign) and any(isinstance(t, ast.Subscript) for t in n.targets) for n in ast.walk(mload)) \
+        and not any(isinstance(n, ast.Call) and isinstance(n.func, ast.Name) and n.func.id == "isinstance" for n in ast.walk(mload))
     facts["ownMultiSelectReturnsNew"] = _same(
         _fn(M, "select"),
         "_check_select_parameters(**kwargs)\nnew_manifest = self.manifest.select_to_manifest(**kwargs)\n"
